@@ -155,6 +155,7 @@ from .suggested_type import (
 from .type_object import TypeObject, get_mro
 from .typeshed import TypeshedFinder
 from .value import (
+    safe_repr,
     NO_RETURN_VALUE,
     SYS_PLATFORM_EXTENSION,
     SYS_VERSION_INFO_EXTENSION,
@@ -4573,7 +4574,7 @@ class NameCheckVisitor(node_visitor.ReplacingNodeVisitor):
                         self._show_error_if_checking(
                             node,
                             "ExceptionGroup cannot be used as the type in an"
-                            f" except* clause: {subval.val!r}",
+                            f" except* clause: {safe_repr(subval.val)}",
                             error_code=ErrorCode.bad_except_handler,
                         )
                     is_exception = issubclass(subval.val, Exception)
